@@ -357,6 +357,35 @@ func runCheck(o checkOpts) int {
 		os.WriteFile(rp, b, 0o644)
 		fmt.Printf("VIOLATION property=%s replay=%s no-failing-input-found\n", id, rp)
 	}
+	// vacuity: a unit none of whose exits is reachable proves nothing about its postconditions
+	// (single unreachable exits are dead defensive code and are only listed in the evidence)
+	{
+		exits := map[string][2]int{} // unit -> (exit covers, of which vacuous)
+		for _, ob := range obs {
+			if !ob.Cover || !strings.Contains(ob.Name, ":cover:exit") {
+				continue
+			}
+			u := ob.Name[:strings.Index(ob.Name, ":cover:exit")]
+			c := exits[u]
+			c[0]++
+			if ob.Status == "vacuous" {
+				c[1]++
+			}
+			exits[u] = c
+		}
+		for _, u := range sortedKeys(exits) {
+			c := exits[u]
+			if c[0] > 0 && c[0] == c[1] {
+				violations++
+				rp := filepath.Join(outRoot, "replays", id+"-"+sanitize(u)+"-no-reachable-exit.json")
+				b, _ := json.MarshalIndent(map[string]any{"property": id, "obligation": u + ":vacuity:no-reachable-exit",
+					"meaning": "no exit of this unit is reachable under its contract and the contracts of its callees: its postconditions hold vacuously (contradictory assumptions)"}, "", " ")
+				os.WriteFile(rp, b, 0o644)
+				fmt.Printf("FAILED %s:vacuity:no-reachable-exit [vacuous] every exit of the unit is unreachable: its postconditions prove nothing\n", u)
+				fmt.Printf("VIOLATION property=%s replay=%s no-failing-input-found\n", id, rp)
+			}
+		}
+	}
 	for _, l := range knownLines {
 		fmt.Println(l)
 	}
